@@ -35,7 +35,7 @@ COMPONENTS = {
 # which oracles decide which property
 OWNS = {
     "C02": {"L2", "L2E"},   # (family units in the C02 workload contribute schedules; their model findings belong to C10)
-    "C03": {"M1", "M2", "M3", "M4", "M4D", "M4F", "M4L", "M5", "M5U", "F1M", "F6", "F8"},
+    "C03": {"M1", "M2", "M3", "M4", "M4D", "M4F", "M4L", "M5", "M5U", "F1M", "F6", "F8", "F9"},
     "C04": {"P7", "P5"},
     "C10": {"P1", "P2", "P2Z", "P3", "P4", "P5", "P6", "P8", "F1", "F2", "F5", "F8", "SD"},
     "C12": {"L4"},
@@ -481,7 +481,7 @@ def aggregate(results):
            "ticks": 0, "fired": {}, "crashes": 0, "eof_checked": 0, "post_terminal_calls": 0, "yield_reentries": 0,
            "calls_compared": 0, "states_total": 0, "states_cut": 0, "states_seen": 0, "fail_then_call": 0, "zero_len": 0,
            "end_after_fail": 0, "zero_after_fail": 0, "exhaustive_inputs": 0, "slow": 0, "spin": 0, "yields_seen": 0,
-           "terminals": {}, "retail": 0, "canon_unusable": 0, "guards_total": 0, "guards_hit": 0, "model_checked": 0, "twins_compared": 0}
+           "terminals": {}, "retail": 0, "canon_unusable": 0, "guards_total": 0, "guards_hit": 0, "model_checked": 0, "twins_compared": 0, "cover_inputs": 0, "states_rest_total": 0, "states_rest_seen": 0}
     nontrivial = set()
     for r in results:
         agg["status"][r["status"]] = agg["status"].get(r["status"], 0) + 1
@@ -581,9 +581,10 @@ def finish_check(prop, tier, root, results, t0, tree, workdir, level_text, rule,
         "faults_fired": agg["fired"],
         "probes": {k: agg[k] for k in ("eof_checked", "post_terminal_calls", "yield_reentries", "calls_compared", "fail_then_call",
                                        "zero_len", "end_after_fail", "zero_after_fail", "exhaustive_inputs", "yields_seen",
-                                       "retail", "spin", "slow", "crashes", "canon_unusable")},
+                                       "retail", "spin", "slow", "crashes", "canon_unusable", "cover_inputs")},
         "terminal_codes_seen": agg["terminals"],
-        "machine_states": {"total": agg["states_total"], "visited": agg["states_seen"], "with_a_cut_on_them": agg["states_cut"]},
+        "machine_states": {"total": agg["states_total"], "visited": agg["states_seen"], "with_a_cut_on_them": agg["states_cut"],
+                           "resting_total": agg["states_rest_total"], "resting_visited": agg["states_rest_seen"]},
         "generated_code_edges": {"total": agg["guards_total"], "executed": agg["guards_hit"]},
         "canonical_traces_checked_against_a_reference_model": agg["model_checked"],
         "strict_done_twins_compared": agg["twins_compared"],
